@@ -490,6 +490,11 @@ func (c *candidateBase) TypePreference() uint16 {
 			tcpPriorityOffset = c.agent().tcpPriorityOffset
 		}
 
+		// Saturate instead of wrapping around in uint16.
+		if tcpPriorityOffset >= pref {
+			return 0
+		}
+
 		pref -= tcpPriorityOffset
 	}
 
